@@ -133,7 +133,7 @@ def selftest(ctx, binp, scen, lines):
         raise Infra("binding self-test failed: %d of 2 corrupted predictions rejected" % summ["fail"])
 
 
-def record_validate(ctx, binp, nscen, nblocks, orders, tag="rv"):
+def record_validate(ctx, binp, nscen, nblocks, orders, tag="rv", bal=False):
     """R->V: seeded random scenarios delivered in random orders to real chains; every observation must be what
     Ledger.tla computes (TraceLedger). Returns (#histories validated, #events, states)."""
     import concurrent.futures, re
@@ -145,8 +145,10 @@ def record_validate(ctx, binp, nscen, nblocks, orders, tag="rv"):
         scen, tr = os.path.join(d, "scenario.json"), os.path.join(d, "trace.ndjson")
         argv = [binp, "record", "-dir", d, "-seed", str(seed), "-blocks", str(nblocks), "-orders", str(orders),
                 "-scenario-out", scen, "-trace-out", tr]
-        if i % 3 == 2:
+        if i % 3 == 2 and not bal:
             argv.append("-compress")
+        if bal:
+            argv.append("-bal")
         p = ctx.run(argv, timeout=1200)
         if p.returncode != 0:
             raise Infra("ledger record failed: " + p.stderr[-2000:])
@@ -170,7 +172,8 @@ def record_validate(ctx, binp, nscen, nblocks, orders, tag="rv"):
     with concurrent.futures.ThreadPoolExecutor(8) as ex:
         for i, seed, summ, r, hw, scen, tr in ex.map(one, range(nscen)):
             for pr in summ.get("problems", []):
-                ctx.violation("%s:utxo-record:%s" % (ctx.pid, re.sub(r"\d+", "N", pr)[:60]), {"scenario_seed": seed, "problem": pr}, pr)
+                kind = "balance" if pr.startswith("balance index") else "utxo-record"
+                ctx.violation("%s:%s:%s" % (ctx.pid, kind, re.sub(r"\d+", "N", pr)[:60]), {"scenario_seed": seed, "problem": pr, "scenario": json.load(open(scen))}, pr)
             if r.ok:
                 hist += orders
                 events += summ["events"]
